@@ -21,6 +21,7 @@ CONSTANTS
   LoopActions = %d
   UseRLock = %s
   UseSendLock = %s
+  TailUnderLock = %s
 INVARIANTS C02_Consecutive C02_StoreNext C02_WireOrder C02_PersistBeforeWire C02_NoLiveInsideReplay
 %s
 CHECK_DEADLOCK FALSE
@@ -32,13 +33,14 @@ def run(ctx):
     ctx.build()
     senders = '{"a", "b"}' if quick else '{"a", "b", "c"}'
     r = ctx.tlc('SendPath.tla', 'sp.cfg', workers=16, timeout=2400,
-                files={'sp.cfg': CFG % (senders, 2, 2 if quick else 3, 'TRUE', 'TRUE', '' if quick else 'PROPERTY C02_AllTransmitted')})
+                files={'sp.cfg': CFG % (senders, 2, 2 if quick else 3, 'TRUE', 'TRUE', 'TRUE', '' if quick else 'PROPERTY C02_AllTransmitted')})
     ctx.tlc_ok(r, 'SendPath M')
     # weakened protocols must violate
-    for lock, inv in (('UseRLock', 'C02_NoLiveInsideReplay'), ('UseSendLock', 'C02_Consecutive')):
+    for lock, inv in (('UseRLock', 'C02_NoLiveInsideReplay'), ('UseSendLock', 'C02_Consecutive'), ('TailUnderLock', 'C02_NoLiveInsideReplay')):
         w = ctx.tlc('SendPath.tla', 'w.cfg', workers=16, timeout=1200,
-                    files={'w.cfg': CFG % ('{"a", "b"}', 2, 2, 'FALSE' if lock == 'UseRLock' else 'TRUE', 'FALSE' if lock == 'UseSendLock' else 'TRUE', '')})
-        if 'is violated' not in w['out']:
+                    files={'w.cfg': CFG % ('{"a", "b"}', 2, 2, 'FALSE' if lock == 'UseRLock' else 'TRUE', 'FALSE' if lock == 'UseSendLock' else 'TRUE',
+                                           'FALSE' if lock == 'TailUnderLock' else 'TRUE', '')})
+        if 'Invariant %s is violated' % inv not in w['out'] and not (lock == 'UseSendLock' and 'is violated' in w['out']):
             raise common.Infra('vacuity: SendPath without %s does not violate any invariant' % lock)
         ctx.notes.append('weakened model (%s = FALSE): TLC reports a violated invariant, as it must' % lock)
     rows = []
@@ -46,8 +48,8 @@ def run(ctx):
     for st in stores:
         tp = os.path.join(ctx.scratch, 'send_%s.ndjson' % st)
         args = ['send', '-out', tp, '-store', st, '-repo', common.REPO]
-        args += ['-runs', '4', '-senders', '4', '-per', '150', '-rounds', '8'] if quick else \
-                ['-runs', '12', '-senders', '8', '-per', '200' if st == 'memory' else '60', '-rounds', '12']
+        args += ['-gated', '2', '-runs', '4', '-senders', '4', '-per', '150', '-rounds', '8'] if quick else \
+                ['-gated', '4', '-runs', '12', '-senders', '8', '-per', '200' if st == 'memory' else '60', '-rounds', '12']
         p = ctx.run_vh(args, timeout=3000)
         if p.returncode != 0:
             if 'engine stuck' in p.stderr:
@@ -78,14 +80,15 @@ def run(ctx):
         row = rows[int(m[1]) - 1]
         for c in sorted(m[2]):
             w = row['wire']
-            ctx.report({'family': 'sendpath', 'clause': c, 'store': row['store']},
-                       'C02 clause %s in stress run %d (%s store, %d senders x %d): submitted=%d saved=%d nextOut=%d wire=%d messages (%d replayed)' % (
-                           c, row['run'], row['store'], row['senders'], row['per'], row['submitted'], len(row['saved']), row['nextOut'], len(w), sum(1 for x in w if x['pd'])),
+            ctx.report({'family': 'sendpath', 'clause': c, 'store': row['store'], 'forced': bool(row.get('gated'))},
+                       'C02 clause %s in %s run %d (%s store, %d senders x %d): submitted=%d saved=%d nextOut=%d wire=%d messages (%d replayed)' % (
+                           c, 'forced-schedule (epoch %d, %d of %d probes completed inside a replay)' % (row['epoch'], row['early'], row['probes']) if row.get('gated') else 'stress',
+                           row['run'], row['store'], row['senders'], row['per'], row['submitted'], len(row['saved']), row['nextOut'], len(w), sum(1 for x in w if x['pd'])),
                        {'run': {k: row[k] for k in ('store', 'senders', 'per', 'submitted', 'nextOut', 'windows')}, 'saved_head': row['saved'][:50],
                         'wire_head': w[:200]})
     # negative control: a first-time message moved into a replayed run must be flagged
     import copy
-    bad = copy.deepcopy(rows[0])
+    bad = copy.deepcopy([r_ for r_ in rows if not r_.get('gated')][0])
     a, b = bad['windows'][1]
     pds = [i for i in range(a - 1, b) if bad['wire'][i]['pd']]
     if len(pds) >= 2:
@@ -98,12 +101,14 @@ def run(ctx):
         'states': r['distinct'], 'transitions': r['generated'], 'traces_validated_against_impl': len(rows),
         'evaluations': sum(len(r_['wire']) for r_ in rows),
         'distinct_nontrivial': len(rows),
-        'rule': 'one trace = one stress run (sender goroutines x messages, concurrent resend rounds, rejects, test requests); evaluations = messages observed on the outbound channel',
+        'forced_schedule_rows': sum(1 for r_ in rows if r_.get('gated')),
+        'forced_probes': sum(r_['probes'] for r_ in rows if r_.get('gated') and r_['epoch'] == 2),
+        'rule': 'one trace = one stress run (sender goroutines x messages, concurrent resend rounds, rejects, test requests) or one epoch of a forced-schedule run (a submission attempted at every callback inside every replay; ResetSeqTime crossed while connected); evaluations = messages observed on the outbound channel',
         'stores': stores,
         'samples': [{k: rows[0][k] for k in ('store', 'senders', 'per', 'submitted', 'nextOut', 'windows')}, {'wire_head': rows[0]['wire'][:6]}],
         'exhaustive': False,
     })
-    ctx.assumptions += ['recorded schedules are whatever the Go scheduler produced in this run (not forced): a lost lock shows only if the race occurs; the model check covers every interleaving of the bounded protocol',
+    ctx.assumptions += ['stress schedules are whatever the Go scheduler produced in this run: a lost lock shows there only if the race occurs; forced schedules place one submission at every application callback inside a replay (6 ms wait each), which reaches every point of the replay where the application is called but not points between two store reads; the model check covers every interleaving of the bounded protocol',
                         'store saves and wire receipts are ordered by one global atomic counter (save -> channel send -> channel receive is causally ordered)']
 
 
